@@ -411,7 +411,7 @@ fn oracle(prop: &str, rep: &mut Report, c: &EmitCase, em: &Emitted) {
                         let kw = ["beta", "production", "development", "sandbox"];
                         let ks: Vec<Option<&str>> = servers.iter().map(|s| s["description"].as_str().and_then(|d| kw.iter().find(|k| d.to_lowercase().contains(**k)).copied())).collect();
                         let mut trig = vec![];
-                        if servers.len() >= 2 { if ks.iter().any(|k| k.is_none()) { trig.push("serversWithoutKeywords".to_string()); } else { trig.push("serversSharingKeyword".to_string()); } }
+                        if servers.len() >= 2 { if ks.iter().any(|k| k.is_none()) { if got == format!("(base_url (env {}))", quote(&format!("{service}_BASE_URL"))) { trig.push("serversWithoutKeywords".to_string()); } } else { trig.push("serversSharingKeyword".to_string()); } }
                         rep.oracle_fail("baseUrlExpression", trig, &case, &format!("lib.rs has {got}, expected (base_url {want})"));
                     } else { rep.bump("c15_base_url_ok"); }
                 }
